@@ -103,6 +103,10 @@ M = {
  "C12c-m2": ("C12", "u32 MONTGOMERY_A_NEG is 2^255 - A instead of p - A", "32-bit build, digest feature, the Elligator2 map", {}),
  "C13c-m1": ("C13", "verify_batch parses S itself: rejects only set high bits, then reduces (accepts S + l)", "batch feature, default (non-legacy) build, the S + l alias of a valid S", {}),
  "C13c-m2": ("C13", "verify_batch treats an undecodable R as the identity (vartime_multiscalar_mul with unwrap_or_default)", "an undecodable R with S = H(R,A,M) * a, any batch size", {}),
+ "C05c-m1": ("C05", "u32 as_bytes: q = (h[0] + 18) >> 26 - zero held as p is serialised as p", "32-bit build; a zero coordinate produced by a subtraction (identity, P - P, torsion points)", {}),
+ "C05c-m2": ("C05", "serial vartime Straus drops None points (flat_map) instead of returning None", "serial implementation, fewer than 190 points, a None input", {}),
+ "C17c-m1": ("C17", "ROOT_OF_UNITY and ROOT_OF_UNITY_INV swapped in PrimeField for Scalar", "group feature; a check that pins down WHICH primitive 4th root is advertised (g^t with t = (l-1) >> S)", {}),
+ "C17c-m2": ("C17", "SubgroupPoint::from_bytes_unchecked skips into_subgroup", "group feature; an encoding with an 8-torsion component through the unchecked entry point", {"C17": "MISSED at first: the specification only demanded decoding of the unchecked entry point (what the group trait promises); tightened to the property's wording - the wrapper admits exactly the torsion-free points"}),
  "C10-own1": ("C10", "LookupTable::select reads the entry by direct index (own seeded change from the design's appendix, not from a sub-agent)", "any secret digit", {"C10": "caught (lock-step traces of ed.mul_base diverge)"}),
 }
 # measured results: seeded/RESULTS.log (appended by tools/run_seeded.sh); the latest line per (change, check, tier) counts
